@@ -144,6 +144,17 @@ class Gen(object):
             c = self.events()
             b = self.block(depth + 1, dict(ctx, loop=True), 1, 3)
             e = self.block(depth + 1, ctx, 1, 2) if rng.random() < 0.35 else ['seq', []]
+            if rng.random() < 0.3:
+                # walrus in the test binding a name the body binds too; the name is read in else: and after the loop
+                self.count('while-walrus-shape')
+                y = [z for z in POOL if z not in ctx.get('nobind', ())][0] if ctx.get('nobind') else self.name()
+                d1, d2 = self.s(), self.s()
+                self.hints[d1] = 'walrus'
+                self.hints[d2] = 'assign'
+                c = ['seq', c[1] + [['bind', y, d1]]]
+                b = ['seq', b[1] + [['bind', y, d2]]]
+                e = ['seq', [['read', y, self.r()]] + e[1]]
+                return [['while', c, b, e], ['read', y, self.r()]]
             return [['while', c, b, e]]
         if kind == 'for':
             it = ['seq', self.reads(0, 2)]
@@ -151,6 +162,8 @@ class Gen(object):
             ys = [z for z in POOL if z not in nb]
             tg = [['bind', rng.choice(ys), self.s()] for _ in range(1 if rng.random() < 0.7 else 2)]
             b = self.block(depth + 1, dict(ctx, loop=True), 1, 3)
+            if self.scopes and not ctx.get('noscope') and rng.random() < 0.15:
+                b = ['seq', [self.deco_def(tg[0][1], depth, ctx)] + b[1]]
             e = self.block(depth + 1, ctx, 1, 2) if rng.random() < 0.35 else ['seq', []]
             return [['for', it, tg, b, e]]
         if kind == 'try':
@@ -170,7 +183,10 @@ class Gen(object):
                     y = self.auxname()
                     if y not in ctx.get('nobind', ()):
                         nm = ['bind', y, self.s()]
-                hs.append([ty, nm, self.block(depth + 1, ctx, 0, 2)])
+                hb = self.block(depth + 1, ctx, 0, 2)
+                if nm and self.scopes and not ctx.get('noscope') and rng.random() < 0.3:
+                    hb = ['seq', [self.deco_def(nm[1], depth, ctx)] + hb[1]]
+                hs.append([ty, nm, hb])
             e = self.block(depth + 1, ctx, 1, 2) if nh and rng.random() < 0.4 else ['seq', []]
             f = self.block(depth + 1, ctx, 1, 2) if (nh == 0 or rng.random() < 0.35) else ['seq', []]
             return [['try', body, hs, e, f]]
@@ -217,6 +233,8 @@ class Gen(object):
                 decls.append(['global', [y]])
                 inner['nobind'] = ()
             body = self.block(depth + 1, inner, 1, 4)
+            if params and not decls and rng.random() < 0.2:
+                body = ['seq', [self.deco_def(params[0][1], depth, inner)] + body[1]]
             if full and rng.random() < 0.3:
                 body[1].append(['return'])
             body = ['seq', decls + body[1]]
@@ -241,6 +259,16 @@ class Gen(object):
         if kind == 'mayraise':
             return [['mayraise', self.k()]]
         raise AssertionError(kind)
+
+    def deco_def(self, target, depth, ctx):
+        """a def with two decorators whose FIRST decorator reads `target` (the for target / except name / parameter of the
+        enclosing construct); meant to be the first statement of that construct's body"""
+        self.count('decorated-first')
+        fname = self.rng.choice([z for z in POOL if z != target and z not in ctx.get('nobind', ())] or POOL)
+        pre = ['seq', [['read', target, self.r()], ['read', self.rng.choice([z for z in POOL if z != fname]), self.r()]]]
+        d = self.s()
+        self.hints[d] = {'dec': 2, 'kw': False, 'posonly': False, 'ann': False}
+        return ['def', pre, ['bind', fname, d], [], ['seq', [['read', self.name(), self.r()]]]]
 
     def comp_reads(self, used, lo=0):
         out = []
@@ -1467,8 +1495,8 @@ def run_property(check, prop):
             prog, hints, stats = gen_program(rng, prop, level)
             progs.append((prog, hints, level, stats))
     # fixed probes (shapes the seeded changes and earlier findings are about)
-    for prog in PROBES:
-        progs.append((prog, {}, 'module', {}))
+    probes = probe_programs()
+    progs += probes
     t_budget = (55 if quick else 420)
     import time
     t0 = time.time()
@@ -1514,7 +1542,7 @@ def run_property(check, prop):
                                  'read %s: supp %s, Den %s\n%s%s' % (bad[:1], [a2[q] for q in bad[:1]], [m2.get(q) for q in bad[:1]],
                                                                      s2, json.dumps(small)))
         # oracle (CPython), within the time budget
-        if time.time() - t0 < t_budget or idx >= len(progs) - len(PROBES):
+        if time.time() - t0 < t_budget or idx >= len(progs) - len(probes):
             viol, nruns, exh, seen, runs, sk = oracle(prop, prog, hints, sa, limit, rng)
             oracle_programs += 1
             skipped_c03 += sk
@@ -1621,7 +1649,30 @@ PROBES = [
     # finally with a compound statement
     ['seq', [['try', ['seq', []], [], ['seq', []], ['seq', [['if', ['seq', []], ['seq', [['bind', 'a', 907]]], ['seq', [['bind', 'a', 908]]]]]]],
              ['read', 'a', 904]]],
+    # walrus in a while test binding a name the body binds too; read in else: and after the loop
+    ['seq', [['while', ['seq', [['bind', 'a', 911]]], ['seq', [['bind', 'a', 912]]], ['seq', [['read', 'a', 911]]]],
+             ['read', 'a', 912]]],
+    # a def with two decorators as FIRST statement of a for body / handler / function body; the first decorator reads the
+    # for target / except name / parameter
+    ['seq', [['for', ['seq', []], [['bind', 'a', 921]],
+              ['seq', [['def', ['seq', [['read', 'a', 921], ['read', 'b', 922]]], ['bind', 'c', 922], [], ['seq', []]]]],
+              ['seq', []]]]],
+    ['seq', [['try', ['seq', [['mayraise', 931]]],
+              [[['seq', []], ['bind', 'e', 931],
+                ['seq', [['def', ['seq', [['read', 'e', 931], ['read', 'b', 932]]], ['bind', 'c', 932], [], ['seq', []]]]]]],
+              ['seq', []], ['seq', []]]]],
+    ['seq', [['def', ['seq', []], ['bind', 'd', 941], [['bind', 'a', 942]],
+              ['seq', [['def', ['seq', [['read', 'a', 941], ['read', 'b', 942]]], ['bind', 'c', 943], [], ['seq', []]]]]]]],
 ]
+
+
+def probe_programs():
+    """every fixed probe at module level and wrapped in a function"""
+    out = []
+    for n, prog in enumerate(PROBES):
+        out.append((prog, {}, 'module', {}))
+        out.append((['seq', [['def', ['seq', []], ['bind', 'main', 990 + n], [], prog]]], {}, 'function', {}))
+    return out
 
 
 WALRUS_PROBE = ['seq', [['comp', [[['seq', [['read', 'a', 981]]], [['bind', 'b', 981]], ['seq', [['bind', 'c', 982]]]]],
